@@ -33,7 +33,14 @@ def gen_cases(tier, seed):
              "cfg": {"out": r.choice(["all", "sinks", "struct", "node"])},
              "perturb": r.choice(["instr", "instr", "none"]) if W > 1 else "none",
              "max_errors": r.choice([0, 0, 1, 2, 5, None]),
-             "faults": {"kinds": r.choice([["exc"], ["exc", "value", "callerr"], ["base"], ["kbi", "sysexit", "genexit"], ["exc", "base", "kbi", "value", "callerr"], ["callerr"]])}}
+             "faults": {"kinds": r.choice([["exc"], ["exc", "value", "callerr"], ["base"], ["kbi", "sysexit", "genexit"], ["exc", "base", "kbi", "value", "callerr"], ["callerr"],
+                                            ["exc", "base", "falsy", "sysexit"], ["falsy", "falsybase", "value"]])}}
+        if r.random() < 0.12:
+            # one call at a time, several failures of different kinds, the run allowed to go on: "it is the first call that failed"
+            d.update(W=1, perturb="none", max_errors=r.choice([None, None, 2, 5]))
+            d["faults"] = {"kinds": r.choice([["exc", "base", "kbi", "sysexit", "value"], ["exc", "base"], ["value", "genexit", "falsy"]]), "count": r.randint(2, 6)}
+            out.append(d)
+            continue
         if r.random() < 0.4:
             d["faults"]["count"] = r.choice([1, 1, 2, 3, ncalls])
         else:
